@@ -72,6 +72,17 @@ func renderMetaInline(m Meta) string {
 
 func (r *renderer) annos(depth int, m Meta) {
 	for _, k := range sortedKeys(m.Annos) {
+		if v := m.Annos[k]; len(v.lines) > 0 {
+			r.line(depth, "@"+k+" =:")
+			for _, l := range v.lines {
+				if l == "" {
+					r.line(depth+1, "|")
+				} else {
+					r.line(depth+1, "| "+l)
+				}
+			}
+			continue
+		}
 		r.line(depth, "@"+k+" = "+renderAttrV(m.Annos[k]))
 	}
 }
